@@ -126,6 +126,7 @@ static Plan c07_gen(uint64_t seed, int tier, uint64_t index) {
             p.cfg["dsq" + std::to_string(i)] = (int64_t) su * 2 + (r.chance(1, 3) ? 1 : 0);
         }
     }
+    if (r.chance(1, 6)) { p.cfg["resdis"] = 1; if (r.chance(1, 2)) { p.cfg["tickets"] = 1; } }
     if (r.chance(1, 5)) { p.cfg["ems_c"] = -1; }
     if (r.chance(1, 6)) { p.cfg["ems_s"] = 1; }
     if (r.chance(1, 4)) { p.cfg["fallback"] = 1; }
@@ -151,6 +152,15 @@ static std::vector<Plan> c07_fixed(int tier) {
         p.ops.push_back(Op("send", 0, 50)); p.ops.push_back(Op("send", 1, 50));
         v.push_back(p);
     } }
+    // resumption on a server session that has the original suite disabled: session id, ticket, TLS 1.3 PSK
+    for (int fam = 0; fam < 3; fam++) { for (int tk = 0; tk < 2; tk++) { for (int two = 0; two < 2; two++) {
+        Plan p; p.seed = 78000 + (uint64_t) ((fam * 2 + tk) * 2 + two);
+        p.cfg["dtls"] = 0; p.cfg["vers_c"] = fam == 2 ? 4 : (fam ? 2 : 1); p.cfg["vers_s"] = p.cfg["vers_c"]; p.cfg["sid_kind"] = KK_RSA2048; p.cfg["resdis"] = 1; p.cfg["tickets"] = tk;
+        p.cfg["suite"] = fam == 2 ? TLS_AES_128_GCM_SHA256 : TLS_RSA_WITH_AES_128_CBC_SHA;
+        if (two) { p.cfg["suite2"] = fam == 2 ? TLS_AES_256_GCM_SHA384 : TLS_RSA_WITH_AES_256_CBC_SHA; }
+        p.ops.push_back(Op("send", 0, 50)); p.ops.push_back(Op("send", 1, 50));
+        v.push_back(p);
+    } } }
     // TLS 1.1 / 1.2 ECDHE-RSA: every pair of non-empty subsets of {P-256, P-384, P-521} as client and server curve lists (and "no list")
     {
         static const uint16_t C3[] = { 23, 24, 25 };
@@ -398,7 +408,26 @@ static RunResult c07_exec(const Plan &p) {
                 } else if (!rewritten && common != 0 && !p.get("fallback")) {
                     res.count("probe.refused_despite_common_version");
                 }
-                res.nontrivial = rewritten || (vc != vs) || p.get("fallback") != 0;
+                // second connection (cfg "resdis"): the client resumes, but THIS server session has the first connection's suite disabled
+                // (matrixSslSetCipherSuiteEnabledStatus before the first byte): it may do a full handshake on another suite or fail, not resume
+                if (!res.violation && p.get("resdis") && cc && sc && !rewritten) {
+                    uint32_t suite1 = w.srv->negotiated_suite();
+                    w.cli->app_close(); w.pump();
+                    w.filter = nullptr;
+                    if (w.connect(true)) {
+                        vsim_set_node(NODE_SERVER);
+                        int32_t drc = matrixSslSetCipherSuiteEnabledStatus(w.srv->ssl, (psCipher16_t) suite1, PS_FALSE);
+                        vsim_set_node(NODE_HARNESS);
+                        w.handshake();
+                        bool c2 = w.cli->is_complete() && w.srv->is_complete();
+                        res.count(std::string("resdis.") + (drc == PS_SUCCESS ? (c2 ? (w.srv->is_resumed() ? "completed_resumed" : "completed_full") : "refused") : "api_refused"));
+                        if (drc == PS_SUCCESS && c2 && w.srv->negotiated_suite() == suite1) {
+                            res.violate("param_not_mutual", "suite_disabled_on_server_session,resumed", std::string("second connection ") + (w.srv->is_resumed() ? "resumed" : "completed") + " on suite " +
+                                        suite_name((uint16_t) suite1) + " although the server application had disabled that suite for this session");
+                        }
+                    }
+                }
+                res.nontrivial = rewritten || (vc != vs) || p.get("fallback") != 0 || p.get("resdis") != 0;
                 res.fingerprint = mix64(w.fingerprint(), (uint64_t) rw * 1000 + rwa);
             }
         }
